@@ -3,6 +3,32 @@
 verus! {
 //@@ item src/storage/commands/executor.rs SetOptions
 //@@ item src/storage/commands/executor.rs StringCommand
+//@@ item src/storage/commands/executor.rs ListCommand
+//@@ include contracts/inc_set_grammar.rs
+
+// C12, parity clause: "redis.call / redis.pcall of a command have the same effect on the dataset and return the same reply ... as
+// sending that command directly". The direct handlers are proved (C01/C03 groups) against reference functions of
+// (dataset, db, arg(parts, i), num_arg(parts, i), set_opts(parts, ..)); the script path is CommandParser::parse_<cmd> followed by an
+// execute_* arm, and the arms are proved (exec_strings / exec_lists) against the SAME reference functions of the parsed fields.
+// The units below close the gap: each parse function refuses exactly the argument shapes its direct handler refuses and otherwise
+// yields fields that are the very arg / num_arg / set_opts values the direct handler feeds to the reference function.
+
+/// `s.parse::<F>()` on an owned String (RCALL site) — a deterministic partial function of the text
+pub uninterp spec fn spec_str_num<F>(s: Seq<char>) -> Option<F>;
+#[verifier::external_body]
+pub fn verif_parse_str<F: core::str::FromStr>(s: String) -> (r: std::result::Result<F, IntErr>)
+    ensures match spec_str_num::<F>(s@) { Some(n) => r matches Ok(v) && v == n, None => r is Err },
+{ unimplemented!() }
+/// strict decoding followed by parsing, as the script path does it
+pub open spec fn strict_num<F>(b: Seq<u8>) -> Option<F> { match spec_utf8(b) { Some(s) => spec_str_num::<F>(s), None => None } }
+/// TRUSTED: for the integer types, `String::from_utf8(b)?.parse()` (script path) and `String::from_utf8_lossy(b).parse()` (direct
+/// path) are the same partial function of the bytes: on valid UTF-8 both decode to the same text, on invalid UTF-8 the strict
+/// decoding fails and the lossy one contains U+FFFD, which no integer syntax admits.
+pub axiom fn axiom_strict_is_lossy_i64(b: Seq<u8>) ensures strict_num::<i64>(b) == parse_lossy_spec::<i64>(b);
+pub axiom fn axiom_strict_is_lossy_u64(b: Seq<u8>) ensures strict_num::<u64>(b) == parse_lossy_spec::<u64>(b);
+/// `parse::<u64>()` is one function, whichever helper names it (verif_parse_u64 at the direct SET sites, verif_parse_str here)
+pub axiom fn axiom_str_u64_same(s: Seq<char>) ensures spec_str_num::<u64>(s) == spec_str_u64(s);
+pub axiom fn axiom_strict_is_lossy_isize(b: Seq<u8>) ensures strict_num::<isize>(b) == parse_lossy_spec::<isize>(b);
 
 /// the parser of the script path (associated functions only)
 pub struct CommandParser;
@@ -10,16 +36,60 @@ pub struct CommandParser;
 impl CommandParser {
 //@@ unit extract_bytes fn src/storage/commands/executor.rs CommandParser::extract_bytes
     fn extract_bytes(frame: &RespFrame) -> (r: Result<Vec<u8>>)
-        ensures match *frame { RespFrame::BulkString(Some(b)) => r matches Ok(v) && v@ == b@, _ => r is Err },
+        ensures match *frame { RespFrame::BulkString(Some(b)) => r matches Ok(v) && v == *b, _ => r is Err },
+//@@ body
+//@@ end
+
+//@@ unit extract_string fn src/storage/commands/executor.rs CommandParser::extract_string
+//@@   rewrite R1
+//@@   rewrite RPCALL "String::from_utf8" verif_from_utf8
+    fn extract_string(frame: &RespFrame) -> (r: Result<String>)
+        ensures match *frame { RespFrame::BulkString(Some(b)) => (match spec_utf8(b@) { Some(s) => r matches Ok(st) && st@ == s, None => r is Err }), _ => r is Err },
 //@@ body
 //@@ end
 
 //@@ unit parse_get fn src/storage/commands/executor.rs CommandParser::parse_get
     fn parse_get(frames: &[RespFrame]) -> (r: Result<StringCommand>)
         ensures
-            // C12: redis.call('GET', ...) is refused for exactly the argument shapes the direct command refuses, and otherwise names the same key
             (frames@.len() != 2 || arg(frames@, 1) is None) ==> r is Err,
             frames@.len() == 2 && arg(frames@, 1) is Some ==> (r matches Ok(StringCommand::Get { key }) && key@ == arg(frames@, 1)->Some_0),
+//@@ body
+//@@ end
+
+//@@ unit parse_incr fn src/storage/commands/executor.rs CommandParser::parse_incr
+    fn parse_incr(frames: &[RespFrame]) -> (r: Result<StringCommand>)
+        ensures
+            (frames@.len() != 2 || arg(frames@, 1) is None) ==> r is Err,
+            frames@.len() == 2 && arg(frames@, 1) is Some ==> (r matches Ok(StringCommand::Incr { key }) && key@ == arg(frames@, 1)->Some_0),
+//@@ body
+//@@ end
+
+//@@ unit parse_decr fn src/storage/commands/executor.rs CommandParser::parse_decr
+    fn parse_decr(frames: &[RespFrame]) -> (r: Result<StringCommand>)
+        ensures
+            (frames@.len() != 2 || arg(frames@, 1) is None) ==> r is Err,
+            frames@.len() == 2 && arg(frames@, 1) is Some ==> (r matches Ok(StringCommand::Decr { key }) && key@ == arg(frames@, 1)->Some_0),
+//@@ body
+//@@ end
+
+//@@ unit parse_strlen fn src/storage/commands/executor.rs CommandParser::parse_strlen
+    fn parse_strlen(frames: &[RespFrame]) -> (r: Result<StringCommand>)
+        ensures
+            (frames@.len() != 2 || arg(frames@, 1) is None) ==> r is Err,
+            frames@.len() == 2 && arg(frames@, 1) is Some ==> (r matches Ok(StringCommand::StrLen { key }) && key@ == arg(frames@, 1)->Some_0),
+//@@ body
+//@@ end
+
+//@@ unit parse_incrby fn src/storage/commands/executor.rs CommandParser::parse_incrby
+//@@   rewrite R1
+//@@   rewrite RCALL parse "Self::extract_string(&frames[2])?" verif_parse_str
+//@@   at "let increment"
+//@@|     proof { axiom_strict_is_lossy_i64(arg(frames@, 2)->Some_0); }
+    fn parse_incrby(frames: &[RespFrame]) -> (r: Result<StringCommand>)
+        ensures
+            (frames@.len() != 3 || arg(frames@, 1) is None || num_arg::<i64>(frames@, 2) is None) ==> r is Err,
+            frames@.len() == 3 && arg(frames@, 1) is Some && num_arg::<i64>(frames@, 2) is Some ==>
+                (r matches Ok(StringCommand::IncrBy { key, increment }) && key@ == arg(frames@, 1)->Some_0 && increment == num_arg::<i64>(frames@, 2)->Some_0),
 //@@ body
 //@@ end
 }
